@@ -45,6 +45,8 @@ func walkTemplates(name string, full bool) []*rstep.ANode {
 			}
 		}
 		add(&rstep.ANode{Type: "message", Branches: []rstep.ABranch{{Pattern: M{"b": "?y"}, Target: x}}})
+		// a message node whose branch evaluation fails (the guard throws) for some messages
+		add(&rstep.ANode{Type: "message", Branches: []rstep.ABranch{{Pattern: M{"a": 2.0}, Guard: prog(true, Op{K: actlang.Throw}), Target: x}, {Pattern: M{"a": "?x"}, Target: x}}})
 		add(&rstep.ANode{Action: prog(true, Op{K: actlang.Emit, V: M{"at": name}}, Op{K: actlang.Set, A: "c", V: 1.0}), Branches: []rstep.ABranch{{Target: x}}})
 		add(&rstep.ANode{Action: prog(false, Op{K: actlang.Emit, V: M{"js": name}}, Op{K: actlang.Del, A: "c"}, Op{K: actlang.Emit, V: M{"js2": name}}), Branches: []rstep.ABranch{{Target: x}}})
 		add(&rstep.ANode{Action: prog(true, Op{K: actlang.Emit, V: "lost"}, Op{K: actlang.Throw}), Branches: []rstep.ABranch{{Target: x}}})
@@ -53,6 +55,30 @@ func walkTemplates(name string, full bool) []*rstep.ANode {
 		}
 	}
 	return ts
+}
+
+// canFail: can a step at this node fail (throwing action or guard, action node that follows no branch)?
+func canFail(n *rstep.ANode) bool {
+	has := func(p *actlang.Prog) bool {
+		if p == nil {
+			return false
+		}
+		for _, o := range p.Ops {
+			if o.K == actlang.Throw {
+				return true
+			}
+		}
+		return false
+	}
+	if has(n.Action) {
+		return true
+	}
+	for _, b := range n.Branches {
+		if has(b.Guard) {
+			return true
+		}
+	}
+	return false
 }
 
 var walkMsgs = []interface{}{M{"a": 1.0}, M{"a": 2.0}, M{"b": 1.0}}
@@ -307,6 +333,15 @@ func forEachWalkSpec(c *vh.Ctx, full bool, f func(as *rstep.ASpec, spec *core.Sp
 				}
 				c.R.States++
 				f(as, spec)
+				if canFail(a) || (full && (canFail(b) || canFail(d))) {
+					// the same spec with an error node that is not a dead end: it listens and recovers
+					as2 := &rstep.ASpec{Nodes: map[string]*rstep.ANode{"n0": a, "n1": b, "n2": d,
+						"error": {Type: "message", Branches: []rstep.ABranch{{Pattern: M{"a": "?e1"}, Target: "n0"}, {Pattern: M{"b": "?e2"}, Target: "n1"}}}}}
+					if spec2, err := as2.Build(); err == nil {
+						c.R.States++
+						f(as2, spec2)
+					}
+				}
 			}
 		}
 	}
@@ -333,11 +368,14 @@ func C05(c *vh.Ctx) {
 	}
 	maxLen := c.Pick(2, 3)
 	limits := []int{0, 1, 2, 3, 5, 100}
+	if c.Quick() {
+		limits = []int{0, 1, 3, 100}
+	}
 	bps := []string{"", "n1", "n2"}
 	c.Bound("nodes", 3)
 	c.Bound("message_sequence_max", maxLen)
 	c.Bound("limits", limits)
-	c.Rule("all assignments of node templates (message / bindings / action nodes incl. failing, stuck and cyclic ones, native and ECMAScript) to 3 nodes x 3 start states x all message sequences up to the bound over 3 messages x limits x breakpoints (none, at n1, at n2) x every split into consecutive batches; invariants (a)-(g) of DESIGN 6/C05 on every Walked, plus equality with the reference walk. states = specs explored, transitions = strides executed; non-trivial = walk with more than one stride.")
+	c.Rule("all assignments of node templates (message / bindings / action nodes incl. failing, stuck and cyclic ones, message nodes whose guard throws, native and ECMAScript; specs that can fail also with an error node that listens and recovers) to 3 nodes x 3 start states x all message sequences up to the bound over 3 messages x limits x breakpoints (none, at n1, at n2) x every split into consecutive batches; invariants (a)-(g) of DESIGN 6/C05 on every Walked, plus equality with the reference walk. states = specs explored, transitions = strides executed; non-trivial = walk with more than one stride.")
 	all := seqs(maxLen)
 	forEachWalkSpec(c, !c.Quick(), func(as *rstep.ASpec, spec *core.Spec) {
 		for _, st := range walkStarts {
